@@ -232,6 +232,13 @@ def main():
         violation = write_replay(ctx, "proof-broken", {"unchecked": "theorems of Properties/%s.v" % ctx.pid,
                                                        "errors": proof["errors"]})
         tail = " no-failing-input-found"
+    try:
+        new_consts = vlib.new_source_constants()
+    except Exception as e:                      # the audit must never decide a check
+        new_consts = ["audit failed: %s" % e]
+    if new_consts:
+        print("NOTE property=%s numeric constants in /repo sources that no scale family is known to straddle: %s"
+              % (ctx.pid, ", ".join(new_consts)))
     cov = {
         "obligations": proof["theorems"], "discharged": proof["closed"] if proof["ok"] else 0,
         "checker_cmd": "cd /verif/coq && make -j16 && coqc -Q . JS Properties/%s.v  (Print Assumptions under every theorem)" % ctx.pid,
@@ -243,6 +250,7 @@ def main():
         "input_distribution": vlib.dist_summary(ctx.dist),
         "known_findings_hit": sorted(ctx.known_hits),
         "notes": ctx.notes,
+        "new_numeric_constants_in_source": new_consts,
         "coqchk": {k: proof.get(k) for k in ("coqchk_exit", "coqchk_s", "coqchk_axioms") if k in proof},
         "exhaustive": False,
     }
